@@ -30,7 +30,7 @@ def one(ctx: Ctx, rng, mode: str, pending: list, spec) -> None:
     inp = ac.gen_input(rng, mode, FLAVOUR)
     nops = rng.choice([1, 2, 3, 3, 4, 5, 6])
     segs, steps, sqrt_ans = ac.run_impl(inp, rng, FLAVOUR, nops)
-    pending.append((inp, segs, ac.request(inp, sqrt_ans)))
+    pending.append((inp, segs, ac.request(inp, sqrt_ans), sqrt_ans))
     spec(ctx, inp, steps)
     valid = not segs[0].startswith("err")
     changed = sum(1 for (op, b, a, e) in steps if op[0] in "RUG" and a is not None and len(a["cells"]) != len(b["cells"]))
@@ -48,6 +48,7 @@ def one(ctx: Ctx, rng, mode: str, pending: list, spec) -> None:
 
 
 def spec_steps(ctx: Ctx, inp: dict, steps) -> None:
+    ac.spec_raised(ctx, inp, steps)
     for idx, (op, before, after, error) in enumerate(steps):
         if op[0] == "init":
             if after is not None:
@@ -58,12 +59,12 @@ def spec_steps(ctx: Ctx, inp: dict, steps) -> None:
 
 
 def flush(ctx: Ctx, pending: list) -> None:
-    replies = ctx.model([r for (_, _, r) in pending])
+    replies = ctx.model([r for (_, _, r, _) in pending])
     if replies is None:
         ctx.notes.append("model driver unavailable: correspondence not run")
         return
-    for (inp, segs, _), rep in zip(pending, replies):
-        ac.compare(ctx, inp, segs, rep)
+    for (inp, segs, _, sq), rep in zip(pending, replies):
+        ac.compare(ctx, inp, segs, rep, sq)
 
 
 def run(ctx: Ctx) -> None:
@@ -88,7 +89,7 @@ def run(ctx: Ctx) -> None:
 def replay_input(ctx: Ctx, inp: dict, pending: list) -> None:
     inp = dict(inp)
     segs, steps, sqrt_ans = ac.run_impl(inp)
-    pending.append((inp, segs, ac.request(inp, sqrt_ans)))
+    pending.append((inp, segs, ac.request(inp, sqrt_ans), sqrt_ans))
     spec_steps(ctx, inp, steps)
 
 
